@@ -2981,9 +2981,7 @@ lyxp_expr_parse(const struct ly_ctx *ctx, const char *expr_str, size_t expr_len,
             if (prev_ntype_check && expr->used && (expr->tokens[expr->used - 1] == LYXP_TOKEN_NAMETEST) &&
                     (((expr->tok_len[expr->used - 1] == 4) &&
                     (!strncmp(&expr_str[expr->tok_pos[expr->used - 1]], "node", 4) ||
-                    !strncmp(&expr_str[expr->tok_pos[expr->used - 1]], "text", 4))) ||
-                    ((expr->tok_len[expr->used - 1] == 7) &&
-                    !strncmp(&expr_str[expr->tok_pos[expr->used - 1]], "comment", 7)))) {
+                    !strncmp(&expr_str[expr->tok_pos[expr->used - 1]], "text", 4))))) {
                 /* it is NodeType after all */
                 expr->tokens[expr->used - 1] = LYXP_TOKEN_NODETYPE;
 
